@@ -15,6 +15,16 @@
 (*   other_then_begin    ProcessProposal of a failed round's proposal, then  *)
 (*                       BeginBlock of the decided one (resetProposalIf-      *)
 (*                       Changed must discard the cache)                      *)
+(*   prepared_then_process / prepared_then_begin                            *)
+(*                       the replica was the proposer of a failed round: it *)
+(*                       ran PrepareProposal for its OWN block (executed    *)
+(*                       with an empty hash and cached), then the decided   *)
+(*                       block of a later round is somebody else's and      *)
+(*                       reaches it as a proposal to validate, or directly  *)
+(*                       as a block to execute (it learned of the decision  *)
+(*                       without validating the proposal): the cache with   *)
+(*                       the empty hash must not be taken for the decided   *)
+(*                       block                                              *)
 (*   restart_*           volatile state lost before the height, reload from  *)
 (*                       disk                                                 *)
 (* Exec(base, blk) is an uninterpreted deterministic function; a cached      *)
@@ -25,7 +35,8 @@ EXTENDS Integers, Sequences, FiniteSets, TLC, Json
 CONSTANTS Replicas,     \* sequence of replica names (validators, each may propose)
           MaxH
 
-Paths == {"process", "replay", "other_then_process", "other_then_begin", "restart_process", "restart_replay"}
+Paths == {"process", "replay", "other_then_process", "other_then_begin", "prepared_then_process", "prepared_then_begin",
+          "restart_process", "restart_replay"}
 
 VARIABLES h,        \* height being executed (1..MaxH), MaxH+1 = done
           canon,    \* canon[r]: sequence of blocks applied by r
@@ -58,6 +69,8 @@ RunPath(r, p, d, o) ==
                 [] p \in {"process", "restart_process"} -> Proc(c0, d)
                 [] p = "other_then_process" -> Proc(Proc(c0, o), d)
                 [] p = "other_then_begin" -> Proc(c0, o)
+                [] p = "prepared_then_process" -> Proc([hash |-> "", blk |-> o, base |-> canon[r]], d)
+                [] p = "prepared_then_begin" -> [hash |-> "", blk |-> o, base |-> canon[r]]
                 [] OTHER -> c0
         \* BeginBlock(hash d): resetProposalIfChanged - cached results are used iff the cache is for this hash
         res == IF c1 # <<>> /\ c1.hash = d THEN Exec(c1.base, c1.blk) ELSE Exec(canon[r], d)
